@@ -444,7 +444,7 @@ func (z *Renderer) AbsArcTo(rx, ry, xAxisRotation float32, largeArc, sweep bool,
 	Rx := math.Abs(float64(rx))
 	Ry := math.Abs(float64(ry))
 	if !(Rx > 0 && Ry > 0) {
-		z.z.LineTo(x, y)
+		z.z.LineTo(z.absVec2(x, y))
 		return
 	}
 
